@@ -490,6 +490,26 @@ func c12r2(p *Program, r *Report) {
 						}
 						return true
 					})
+					// `var pos int`: starts at the zero value
+					ast.Inspect(fi.Decl.Body, func(x ast.Node) bool {
+						if vs, isVS := x.(*ast.ValueSpec); isVS && !posWithin(loop, vs.Pos()) {
+							for i, nm := range vs.Names {
+								if info.Defs[nm] != obj {
+									continue
+								}
+								if len(vs.Values) == 0 {
+									startsZero = true
+								} else if i < len(vs.Values) {
+									if z, isK := constInt(info, vs.Values[i]); isK && z == 0 {
+										startsZero = true
+									} else {
+										other = true
+									}
+								}
+							}
+						}
+						return true
+					})
 					okPos = startsZero && advanced && !other
 				}
 				if three && okPos {
@@ -651,6 +671,12 @@ func c12r2(p *Program, r *Report) {
 				}
 			case *ast.ReturnStmt:
 				if len(s.Results) == 2 {
+					// return fixed[i:], nil with i advanced by the trimming loop
+					if sl, ok := ast.Unparen(s.Results[0]).(*ast.SliceExpr); ok && exprStr(sl.X) == fixedVar && sl.Low != nil && sl.High == nil {
+						if _, isK := constInt(info, sl.Low); !isK {
+							okTrim, trimmed = true, "return "+exprStr(sl)
+						}
+					}
 					if c, ok := ast.Unparen(s.Results[0]).(*ast.CallExpr); ok && len(c.Args) == 1 && exprStr(c.Args[0]) == fixedVar {
 						if fn := calleeOf(info, c); fn != nil && returnsReslice(p.FuncOf(fn)) {
 							okTrim, trimmed = true, "return "+exprStr(c)
